@@ -338,29 +338,29 @@ def t6(cx):
              construct=f"default_conf = {vals}", detail="generator placeholders = specialiser search keys; address arithmetic in int64_t over char*", bad_detail="default_conf placeholders/types changed", sub="conf")
 
 
-@rule("T4", ["C02"], "path enumeration recurses into every inner type and the offset generator handles every path part kind")
+ZOO_API = ['Big_get_a', 'Big_get_arr', 'Big_get_arr2_k', 'Big_get_arr2_v', 'Big_get_arr2_w', 'Big_get_b', 'Big_get_c32', 'Big_get_c64', 'Big_get_d2', 'Big_get_i32', 'Big_get_m', 'Big_get_r_k', 'Big_get_r_v', 'Big_get_r_w', 'Big_getp', 'Big_getp1_arr', 'Big_getp1_arr2', 'Big_getp1_arr2_k', 'Big_getp1_arr2_v', 'Big_getp1_arr2_w', 'Big_getp1_strs', 'Big_getp2_d2', 'Big_getp2_m', 'Big_getp_a', 'Big_getp_arr', 'Big_getp_arr2', 'Big_getp_b', 'Big_getp_c32', 'Big_getp_c64', 'Big_getp_d2', 'Big_getp_i32', 'Big_getp_m', 'Big_getp_r', 'Big_getp_r_k', 'Big_getp_r_v', 'Big_getp_r_w', 'Big_getp_s', 'Big_getp_strs', 'Big_getp_u', 'Big_len_arr', 'Big_len_arr2', 'Big_len_d2', 'Big_len_m', 'Big_len_strs', 'Big_member_u', 'Big_set_a', 'Big_set_arr', 'Big_set_arr2_k', 'Big_set_arr2_v', 'Big_set_arr2_w', 'Big_set_b', 'Big_set_c32', 'Big_set_c64', 'Big_set_d2', 'Big_set_i32', 'Big_set_m', 'Big_set_r_k', 'Big_set_r_v', 'Big_set_r_w', 'Big_typeid_u']
+
+
+@rule("T4", ["C02"], "path enumeration recurses into every inner type: the zoo's API has an accessor of every kind for every member reachable from the root")
 def t4(cx):
-    m = cx.m
-    want = {
-        "struct::Struct._gen_data_paths": ("field.ftype", "cls._fields"),
-        "array::Array._gen_data_paths": ("cls._itemtype", None),
-        "ref::Ref._gen_data_paths": ("self._reftype", None),
-    }
-    for spec, (inner, loop) in want.items():
-        f = m.func(spec)
-        src = norm(f)
-        rec = f"paths.extend({inner}._gen_data_paths(" in src and f"hasattr({inner}, '_gen_data_paths')" in src
-        if loop:
-            rec = rec and f"for field in {loop}" in src
-        cx.check(rec and "paths.append(base + [" in src, f, construct=f"{spec.split('::')[1]} recurses into {inner}", detail="every inner type contributes its own paths", bad_detail=f"path enumeration does not recurse into {inner}")
-    go = m.func("capi::gen_method_offset")
-    src = norm(go)
-    ok = all(x in src for x in ("is_index(part)", "is_field(part)", "is_ref(part)", "Index_get_c_offset(part, conf, icount)", "Field_get_c_offset(part, conf)", "Ref_get_c_offset(part, conf)", "icount += len(part.cls._shape)"))
-    cx.check(ok, go, construct="gen_method_offset: arms for Index / Field / Ref parts, index counter advanced by the array rank", detail="every part kind _gen_data_paths can produce has an arm (type objects contribute 0)", bad_detail="an arm for a path-part kind is missing or the index counter is not advanced by the array rank")
-    # static offsets are accumulated and flushed before/after dynamic parts
-    ok = "if offset > 0:" in src and "lst.append(f'  offset+={offset};')" in src and src.count("lst.append(f'  offset+={offset};')") == 2 and "offset = 0" in src
-    cx.check(ok, go, construct="pending static offset is flushed before every dynamic part and at the end, then reset", detail="no static contribution is lost or counted twice", bad_detail="static offset accumulation is not flushed/reset around dynamic parts", sub="flush")
-    mp = m.func("capi::methods_from_path")
-    src = norm(mp)
-    ok = all(x in src for x in ("is_scalar(lasttype)", "gen_method_get(cls, path, conf)", "gen_method_set(cls, path, conf)", "is_type(lasttype)", "gen_method_getp(cls, path, conf)", "is_array(lasttype)", "gen_method_len(cls, path, conf)", "is_unionref(lasttype)", "gen_method_typeid(cls, path, conf)", "gen_method_member(cls, path, conf)"))
-    cx.check(ok, mp, construct="methods_from_path: get/set for scalars, getp for all types, len for arrays, typeid/member for unions", detail="accessor kinds per leaf kind", bad_detail="an accessor kind is no longer generated for its leaf kind", sub="methods")
+    """The accessor set the CURRENT generator emits for the type zoo (evaluated, not matched) is compared with the frozen
+    list of accessors the documented scheme yields for it: get/set for scalar leaves, getp for every part, getpN /
+    len for arrays, typeid/member for union references -- through fields, array items (incl. array of struct, array of
+    strings) and references.  A member the enumeration no longer reaches, or an accessor kind no longer generated for
+    its leaf kind, shows up as a missing name; the ADDRESS each of them computes is rule T3z."""
+    Z = _zoo_sources(cx)
+    funs = _functions(Z["src"])
+    got = set(funs)
+    want = set(ZOO_API)
+    missing = sorted(want - got)
+    for nm in missing[:6]:
+        cx.bad(None, construct=f"accessor `{nm}` is not generated for the type zoo", detail="a member reachable from the root (or an accessor kind of its leaf kind) has no C accessor any more: kernels using it fail to build / the member cannot be addressed from C", anchor="capi::methods_from_path")
+    if not missing:
+        cx.ok(None, construct=f"{len(want)} accessors of the zoo generated ({len(got - want)} additional)", detail="every member reachable from the root has the accessors of its kind", anchor="capi::methods_from_path")
+    # each generated function appears once (a duplicate definition does not compile)
+    import collections
+
+    names = re.findall(r"(?m)^/\*gpufun\*/[^\n{;]*?\b([A-Za-z_0-9]+)\([^)]*\)\s*\{", Z["src"])
+    dup = [n for n, k in collections.Counter(names).items() if k > 1]
+    cx.check(not dup, None, construct=f"{len(names)} function definitions, {len(dup)} duplicated", detail="each accessor is defined once", bad_detail=f"accessors defined more than once: {dup[:4]}", anchor="capi::gen_code", sub="once")
+    cx.need(len(Z["paths"]) >= 40, f"only {len(Z['paths'])} data paths enumerated for the zoo")
